@@ -25,6 +25,23 @@ def main(argv=None):
         from .srcmodel import load_repo
         repo = load_repo()
         mod.run(chk, repo, args.tier)
+        if args.tier == 'thorough' and not os.environ.get('VERIF_SELFTEST'):
+            from selftest.harness import mutants_for, run_all
+            from .report import AnalysisError
+            ms = mutants_for(pid)
+            res = run_all(pid, ms)
+            summary = [{'mutant': m.name, 'expects_rule': m.expect, 'status': st, 'info': info, 'what': m.desc}
+                       for m, st, info in res]
+            chk.extra['selftest'] = {
+                'explanation': 'AST-located mutants of the current tree (one rule instance broken each) applied to '
+                               'scratch copies; the check must report the named rule',
+                'mutants': len(ms), 'killed': sum(1 for _, st, _ in res if st == 'killed'),
+                'skipped': sum(1 for _, st, _ in res if st == 'skipped'), 'results': summary}
+            bad = [x for x in summary if x['status'] in ('survived', 'analysis-error')]
+            for x in summary:
+                print(f"  selftest {x['status']:14s} {x['mutant']} (expects {x['expects_rule']})")
+            if bad:
+                raise AnalysisError('checker self-test: mutants not detected: ' + ', '.join(b['mutant'] for b in bad))
     return run_check(pid, args.tier, fn)
 
 
